@@ -13,7 +13,7 @@
  *  strchrnul    reference loop;  strstr: any result (NULL / inside the haystack), arguments recorded
  *  strchr       only used for the QB_XC marker: position given by the ghost verif_xc_pos
  *  strlen       ghost length of the one registered message buffer, reference loop otherwise
- *  vsnprintf    writes a three-character message (arbitrary characters, the QB_XC marker absent / first / middle / last)
+ *  vsnprintf    (-DVERIF_MSG_EMPTY: writes the empty message and returns 0) otherwise writes a three-character message (arbitrary characters, the QB_XC marker absent / first / middle / last)
  *               and returns 3 -- formatting itself is property C13's business
  *  snprintf     the two forms libqb's log.c uses ("%.*s" and "custom-%u")
  *  strdup       fresh copy or NULL
@@ -193,6 +193,9 @@ static int verif_pthread_join(pthread_t t, void **r) { verif_thread_joins++; ret
 static void verif_pthread_exit(void *r) __attribute__((noreturn));
 static void verif_pthread_exit(void *r)
 {
+#ifdef VERIF_PTHREAD_EXIT_HOOK
+	VERIF_PTHREAD_EXIT_HOOK();       /* unit-specific observer: the state in which the thread ends */
+#endif
 #ifdef VERIF_NATIVE
 	exit(0);
 #else
@@ -312,6 +315,15 @@ static int verif_vsnprintf(char *str, size_t size, const char *fmt, va_list ap)
 	VERIF_ND(uint8_t, nd_m2);
 	verif_vsnprintf_calls++;
 	POST(size >= 4, "formatter is handed a buffer of at least four bytes");
+#ifdef VERIF_MSG_EMPTY
+	/* cheapest message: the empty expansion (vsnprintf returns 0).  cs_format then touches no byte of the buffer through a
+	 * symbolic index, which is what made the 32-slot delivery units take minutes / run out of memory. */
+	str[0] = 0;
+	verif_msg_buf = str;
+	verif_msg_len = 0;
+	verif_xc_pos = -1;
+	return 0;
+#endif
 	ASSUME(nd_xc_pos >= -1 && nd_xc_pos <= 2);
 	ASSUME(nd_m0 != 0 && nd_m1 != 0 && nd_m2 != 0 && nd_m0 != '\a' && nd_m1 != '\a' && nd_m2 != '\a');
 #ifdef VERIF_CBMC
